@@ -55,7 +55,8 @@ def _collect_apps(terms, names):
             stack.append(t.body())
             continue
         if z3.is_app(t):
-            if t.num_args() and t.decl().kind() == z3.Z3_OP_UNINTERPRETED and t.decl().name() in names:
+            if t.num_args() and t.decl().kind() == z3.Z3_OP_UNINTERPRETED and \
+                    (t.decl().name() in names or t.decl().name().startswith('H_')):
                 out.append(t)
             stack.extend(t.children())
     return out
@@ -116,6 +117,9 @@ def ground_axioms(terms):
                 sarg = a.arg(0)
                 new += [z3.Implies(bm._UTF8OK(sarg), bm._UTF8ENC(a) == sarg),
                         z3.Implies(z3.InRe(sarg, bm.ascii_re()), a == sarg), z3.Length(a) <= z3.Length(sarg)]
+            elif nm.startswith('H_'):
+                from .stdmodels import HASH_SIZES
+                new += [z3.Length(a) == HASH_SIZES[nm[2:]], z3.InRe(a, byte_re())]
             elif nm == 'utf8_valid':
                 sarg = a.arg(0)
                 new += [z3.Implies(z3.InRe(sarg, bm.ascii_re()), a)]
